@@ -241,9 +241,15 @@ fn deep(run: &Run, bits: usize, levels: &[usize], tape: &Tape, tname: &str) {
         if !on_first {
             std::mem::swap(&mut on, &mut sib);
         }
-        let ap = param(&[on.clone(), sib.clone()]);
         run.count("evaluations", 1);
         run.count("deep_cases", 1);
+        let ap = match catch(|| Poplar1AggregationParam::try_from_prefixes(vec![IdpfInput::from_bools(&on), IdpfInput::from_bools(&sib)])) {
+            Ok(Ok(ap)) => ap,
+            other => {
+                run.fail(&format!("poplar1/deep/bits={bits}/level={level}/param_refused"), &format!("Poplar1(bits={bits}): the admissible aggregation parameter (level {level}, on-path prefix and its sibling) cannot be constructed: {:?}", other.map(|r| r.map(|_| ()).map_err(|e| e.to_string()))), json!({"bits": bits, "level": level}));
+                continue;
+            }
+        };
         let key = if level >= 21846 { format!("poplar1/level>=21846/bits={bits}") } else { format!("poplar1/deep/bits={bits}/level={level}") };
         match verify(&vdaf, &rep, &vk, &ap) {
             Ok(outs) => match unshard_counts(&vdaf, &ap, &[outs]) {
